@@ -1006,6 +1006,12 @@ class H2Stream:
         events = self.state_machine.process_input(
             StreamInputs.RECV_PUSH_PROMISE
         )
+        if not events:
+            # Only a stream that has never been used reacts to this input
+            # without an event (that is how a *promised* stream is set up).
+            # A PUSH_PROMISE whose parent is such a stream is a protocol
+            # violation by the peer, not an IndexError.
+            raise ProtocolError("PUSH_PROMISE received on an idle stream")
         events[0].pushed_stream_id = promised_stream_id
 
         hdr_validation_flags = self._build_hdr_validation_flags(events)
